@@ -753,6 +753,7 @@ def run(ctx):
     ]
     ctx.gate()
     ctx.translate(['GenLoops', 'GenNested'])
+    ctx.translate(['GenC01Config'])      # tools/gen_c01_config.py: no method body writes the configuration (separate call: one refusal marks every name of a call)
     ok = ctx.build_props(extra=['C01/Trace.vo', 'C01/NestedTrace.vo'])
     schema_vs_source(ctx)
     shape_correspondence(ctx)
@@ -770,6 +771,9 @@ def run(ctx):
     ctx.note(f'direct oracle: {n} returning calls checked for shape/dtype/per-point keys/record length/finiteness (budget x{budget})')
     from .c01_dtype import dtype_oracle      # first calls on objects / functions WITHOUT x_data (generated axes), non-float64 data
     dtype_oracle(ctx)
+    from .c01_history import history_oracle, layout_oracle      # fitters with a history of rejected calls; non-default memory layouts
+    history_oracle(ctx)
+    layout_oracle(ctx)
     nb = boundary_oracle(ctx)
     ctx.note(f'boundary oracle: {nb} returning calls with zero / one / per-axis unequal values of every window-like parameter '
              '(*half_window*, smooth*, num_smooths, min_length, sections, min_fwhm) and every padding mode (alone and crossed with small '
@@ -794,6 +798,12 @@ def replay(rep):
     if case.get('kind') == 'nested':
         from .c01_nested import replay_nested
         return replay_nested(case)
+    if case.get('kind') == 'history':
+        from .c01_history import replay_history
+        return replay_history(case)
+    if case.get('kind') == 'layout':
+        from .c01_history import replay_layout
+        return replay_layout(case)
     print('replay case:', case)
     if case.get('kind') == 'trace':
         from .common import Ctx
